@@ -145,13 +145,10 @@ def Rec.field (r : Rec) : StatField → Nat
   | .links => r.nlink | .inum => r.ino | .uid => r.uid | .gid => r.gid
 
 /-- `WalkEntry::file_name`: below a starting point the entry's name; for a starting point the last
-    component (explicit entries: `components().next_back()`; walkdir entries: `Path::file_name`),
-    or the whole path if there is none -/
+    component (`components().next_back()`, `..` included), or the whole path if there is none -/
 def fileName (start : Bytes) (v : Visit Attr) : Bytes :=
   match v.ent.rpath with
-  | [] =>
-    if v.explicit then (FuModel.Path.lastComponent start).getD start
-    else (FuModel.Path.fileName start).getD start
+  | [] => (FuModel.Path.lastComponent start).getD start
   | n :: _ => n
 
 /-! ### -printf rendering -/
